@@ -1,8 +1,14 @@
 use super::job_queue::*;
 use super::queue_state::*;
 
+#[cfg(not(logicalshift_desync_verif))]
 use std::sync::*;
+#[cfg(logicalshift_desync_verif)]
+use desync_verif_rt::sync::*;
+#[cfg(not(logicalshift_desync_verif))]
 use std::thread::{Thread};
+#[cfg(logicalshift_desync_verif)]
+use desync_verif_rt::thread::{Thread};
 use futures::task::{ArcWake};
 
 ///
